@@ -88,6 +88,49 @@ def _sink_flows(f):
     return res, ncalls
 
 
+def check_alternatives(ctx, A, rule='R5'):
+    """alternatives of one construct are analysed independently (shared with C27, whose loop query is uses & defines)"""
+    ctx.rule(rule, 'handlers of nodes with alternative bodies never pass the defines of one alternative as kill set to '
+                   'another (_visit_body(..., defines=...)) and never subtract body defines from uses')
+    for hn in ('visit_Conditional', 'visit_MultiConditional', 'visit_MaskedStatement'):
+        f = A.function(hn)
+        # names bound to the `defines` result (2nd element) of _visit_body calls, and accumulators thereof
+        dnames = set()
+        for n in ast.walk(f.node):
+            if isinstance(n, ast.Assign) and isinstance(n.targets[0], ast.Tuple) and isinstance(n.value, ast.Call) \
+                    and X.dotted_attr(n.value.func) == 'self._visit_body' and len(n.targets[0].elts) == 3:
+                t = n.targets[0].elts[1]
+                if isinstance(t, ast.Name):
+                    dnames.add(t.id)
+        changed = True
+        while changed:
+            changed = False
+            for n in ast.walk(f.node):
+                if isinstance(n, (ast.Assign, ast.AugAssign)):
+                    tgt = n.targets[0] if isinstance(n, ast.Assign) else n.target
+                    if isinstance(tgt, ast.Name) and tgt.id not in dnames and X._names_in(n.value) & dnames:
+                        if not (isinstance(n.value, ast.Call) and X.dotted_attr(n.value.func) == 'self._visit_body'):
+                            dnames.add(tgt.id)
+                            changed = True
+        calls = [c for c in ast.walk(f.node) if isinstance(c, ast.Call) and X.dotted_attr(c.func) == 'self._visit_body']
+        if not calls:
+            raise AnalysisError(f'{hn}: no _visit_body call')
+        bad = [c for c in calls if any(k.arg == 'defines' for k in c.keywords)]
+        subs = [n for n in ast.walk(f.node) if ((isinstance(n, ast.BinOp) and isinstance(n.op, ast.Sub) and X._names_in(n.right) & dnames)
+                                                 or (isinstance(n, ast.AugAssign) and isinstance(n.op, ast.Sub) and X._names_in(n.value) & dnames))]
+        if bad:
+            ctx.violation(rule, f'{hn}:defines-handover', f'{f.module.relpath}:{bad[0].lineno}',
+                          f'`{ast.unparse(bad[0])}` hands the symbols defined by earlier alternatives to the next alternative as '
+                          f'kill set: a variable written in one branch and read in another (mutually exclusive) branch disappears '
+                          f'from uses_symbols', facts={'defines_names': sorted(dnames)})
+        elif subs:
+            ctx.violation(rule, f'{hn}:defines-subtracted', f'{f.module.relpath}:{subs[0].lineno}',
+                          f'`{ast.unparse(subs[0])}` removes symbols defined in a sibling alternative from the uses of this one')
+        else:
+            ctx.judge(rule, hn, facts={'visit_body_calls': len(calls), 'defines_names': sorted(dnames)})
+
+
+
 def run(ctx):
     m = ctx.model
     ctx.rule('R1', 'for every IR node class, static dispatch in DataflowAnalysisAttacher and DataflowAnalysis._Attacher '
@@ -282,45 +325,7 @@ def run(ctx):
         else:
             ctx.judge('R4', f'{hn}:merge')
 
-    # ---- R5
-    ctx.rule('R5', 'handlers of nodes with alternative bodies never pass the defines of one alternative as kill set to '
-                   'another (_visit_body(..., defines=...)) and never subtract body defines from uses')
-    for hn in ('visit_Conditional', 'visit_MultiConditional', 'visit_MaskedStatement'):
-        f = A.function(hn)
-        # names bound to the `defines` result (2nd element) of _visit_body calls, and accumulators thereof
-        dnames = set()
-        for n in ast.walk(f.node):
-            if isinstance(n, ast.Assign) and isinstance(n.targets[0], ast.Tuple) and isinstance(n.value, ast.Call) \
-                    and X.dotted_attr(n.value.func) == 'self._visit_body' and len(n.targets[0].elts) == 3:
-                t = n.targets[0].elts[1]
-                if isinstance(t, ast.Name):
-                    dnames.add(t.id)
-        changed = True
-        while changed:
-            changed = False
-            for n in ast.walk(f.node):
-                if isinstance(n, (ast.Assign, ast.AugAssign)):
-                    tgt = n.targets[0] if isinstance(n, ast.Assign) else n.target
-                    if isinstance(tgt, ast.Name) and tgt.id not in dnames and X._names_in(n.value) & dnames:
-                        if not (isinstance(n.value, ast.Call) and X.dotted_attr(n.value.func) == 'self._visit_body'):
-                            dnames.add(tgt.id)
-                            changed = True
-        calls = [c for c in ast.walk(f.node) if isinstance(c, ast.Call) and X.dotted_attr(c.func) == 'self._visit_body']
-        if not calls:
-            raise AnalysisError(f'{hn}: no _visit_body call')
-        bad = [c for c in calls if any(k.arg == 'defines' for k in c.keywords)]
-        subs = [n for n in ast.walk(f.node) if ((isinstance(n, ast.BinOp) and isinstance(n.op, ast.Sub) and X._names_in(n.right) & dnames)
-                                                 or (isinstance(n, ast.AugAssign) and isinstance(n.op, ast.Sub) and X._names_in(n.value) & dnames))]
-        if bad:
-            ctx.violation('R5', f'{hn}:defines-handover', f'{f.module.relpath}:{bad[0].lineno}',
-                          f'`{ast.unparse(bad[0])}` hands the symbols defined by earlier alternatives to the next alternative as '
-                          f'kill set: a variable written in one branch and read in another (mutually exclusive) branch disappears '
-                          f'from uses_symbols', facts={'defines_names': sorted(dnames)})
-        elif subs:
-            ctx.violation('R5', f'{hn}:defines-subtracted', f'{f.module.relpath}:{subs[0].lineno}',
-                          f'`{ast.unparse(subs[0])}` removes symbols defined in a sibling alternative from the uses of this one')
-        else:
-            ctx.judge('R5', hn, facts={'visit_body_calls': len(calls), 'defines_names': sorted(dnames)})
+    check_alternatives(ctx, A, 'R5')
 
     # ---- R6
     ctx.rule('R6', 'in the enriched branch of visit_CallStatement the set filtered out of defines (`dims`) derives only from outvals')
